@@ -193,9 +193,9 @@ EXT4 = {
  "C15": " Also: 1-3 hosts failing the pool's own calls in every ack / error / silence combination (the reply is built from those errors); 2 kB parameter values.",
  "C16": " Also: a refused registration leaves nothing of the object callable; request sequences over the HTTP server (a valid call, then each malformed form of the params member).",
  "C17": " Also: numbers that no float64 holds exactly, in ids, results and error data (expected values taken from the message text, compared digit by digit); real loopback TCP: 400 x 16 kB, Close right after the last write, slow reader, both WebSocket codecs, both directions.",
- "C18": " Also: 11 x 11 address pairs across private, carrier-grade, link-local, unique-local and public ranges under strict peering.",
+ "C18": " Also: 11 x 11 address pairs across private, carrier-grade, link-local, unique-local and public ranges under strict peering; the agent binary (--strict-peers on/off x --min-peers 0/3 x 3 invalid lists) against a served geth-dialect node and a scripted WebSocket pool, its start-up round judged like the in-process rounds.",
  "C19": " Also: the real binary with 7 sets of forwarding headers (advertised address = the connection's); registrations over an in-process pipe (no address: refused).",
- "C20": " Also: the interval reconfigured between runs.",
+ "C20": " Also: the interval reconfigured between runs; the agent binary with --update-interval=6s against a served pool (fourth keep-alive within 100 s; never more than one per full interval since process start plus the start-up one).",
 }
 for pid, add in EXT4.items():
     CHECKS[pid]["text"] += add
